@@ -97,23 +97,7 @@ def theorem_names(module):
     return names
 
 
-def audit(modules):
-    """returns (obligations: list[dict(name, ok, axioms, error)], raw)"""
-    names = []
-    for mod in modules:
-        try:
-            names += theorem_names(mod)
-        except FileNotFoundError:
-            names.append(f"<missing module {mod}>")
-    src = "\n".join(f"import {m}" for m in modules) + "\n" + "\n".join(
-        f"#print axioms {n}" for n in names if not n.startswith("<")) + "\n"
-    tmp = os.path.join(LEAN, f".audit_{os.getpid()}.lean")
-    open(tmp, "w").write(src)
-    try:
-        p = subprocess.run(["lake", "env", "lean", tmp], cwd=LEAN, capture_output=True, text=True)
-    finally:
-        os.remove(tmp)
-    out = p.stdout + p.stderr
+def _parse_axioms(out):
     res = {}
     # parse: "'Name' depends on axioms: [a, b]" or "'Name' does not depend on any axioms"
     flat = out.replace("\n ", " ")
@@ -121,14 +105,54 @@ def audit(modules):
         res[m.group(1)] = [a.strip() for a in m.group(2).split(",") if a.strip()]
     for m in re.finditer(r"^'(.+?)' does not depend on any axioms", flat, re.M):
         res[m.group(1)] = []
-    obs = []
-    for n in names:
-        if n in res:
-            bad = [a for a in res[n] if a not in ALLOWED_AXIOMS]
-            obs.append({"name": n, "ok": not bad, "axioms": res[n], "error": ("disallowed axioms " + ",".join(bad)) if bad else None})
-        else:
-            obs.append({"name": n, "ok": False, "axioms": None, "error": "not elaborated (build broken or theorem missing)"})
-    return obs, out
+    return res
+
+
+def _audit_module(mod):
+    """axioms of every theorem of one module.  First through the compiled module; if the module did not build, its
+    source is elaborated directly (Lean continues after an error, so the theorems that still check are told apart from
+    the ones that do not: a failed proof shows up as `sorryAx` or as an unknown constant)."""
+    try:
+        names = theorem_names(mod)
+    except FileNotFoundError:
+        return [f"<missing module {mod}>"], {}, ""
+    tag = f"{os.getpid()}_{mod.replace('.', '_')}"
+    tmp = os.path.join(LEAN, f".audit_{tag}.lean")
+    open(tmp, "w").write(f"import {mod}\n" + "\n".join(f"#print axioms {n}" for n in names) + "\n")
+    try:
+        p = subprocess.run(["lake", "env", "lean", tmp], cwd=LEAN, capture_output=True, text=True)
+    finally:
+        os.remove(tmp)
+    out = p.stdout + p.stderr
+    res = _parse_axioms(out)
+    if names and not any(n in res for n in names):
+        srcfile = os.path.join(LEAN, mod.replace(".", "/") + ".lean")
+        tmp = os.path.join(LEAN, f".auditsrc_{tag}.lean")
+        open(tmp, "w").write(open(srcfile).read() + "\n" + "\n".join(f"#print axioms {n}" for n in names) + "\n")
+        try:
+            p = subprocess.run(["lake", "env", "lean", tmp], cwd=LEAN, capture_output=True, text=True)
+        finally:
+            os.remove(tmp)
+        out = p.stdout + p.stderr
+        res = _parse_axioms(out)
+    return names, res, out
+
+
+def audit(modules):
+    """returns (obligations: list[dict(name, ok, axioms, error)], raw)"""
+    from concurrent.futures import ThreadPoolExecutor
+    with ThreadPoolExecutor(max_workers=min(8, max(1, len(modules)))) as ex:
+        parts = list(ex.map(_audit_module, modules))
+    obs, raw = [], ""
+    for names, res, out in parts:
+        raw += out
+        for n in names:
+            if n in res:
+                bad = [a for a in res[n] if a not in ALLOWED_AXIOMS]
+                obs.append({"name": n, "ok": not bad, "axioms": res[n], "error": ("disallowed axioms " + ",".join(bad)) if bad else None})
+            else:
+                obs.append({"name": n, "ok": False, "axioms": None, "error": "not elaborated (build broken or theorem missing)"})
+    return obs, raw
 
 
 def load_known():
